@@ -338,6 +338,19 @@ func runLexProps(ctx *harness.Ctx, oracle harness.Oracle) {
 		})
 		ctx.Exhaustive(fmt.Sprintf("all sequences of <=%d lexical words from %q", nw, lexWords), ctx.ViolationCount() == 0)
 	})
+	wsSyms := []string{" ", "\n", "\t", "\r", "\u00a0", "\u3000", "\u2028", "\u0085", "\v", "a", "/*c*/", "--c\n", "\xa0", "\xc2"}
+	nws := ctx.Pick(4, 5)
+	ctx.Leg("exhaustive-whitespace", func() {
+		enumSeq(len(wsSyms), nws, ctx.Shard, ctx.Of, func(ix []int) bool {
+			var b strings.Builder
+			for _, i := range ix {
+				b.WriteString(wsSyms[i])
+			}
+			do(nil, "exhaustive-whitespace", b.String())
+			return limit()
+		})
+		ctx.Exhaustive(fmt.Sprintf("all sequences of <=%d symbols from ASCII / Unicode whitespace, stray bytes 0xA0 0xC2, an identifier and comments", nws), ctx.ViolationCount() == 0)
+	})
 	nn := ctx.Pick(5, 6)
 	ctx.Leg("exhaustive-numeric", func() {
 		enumStrings(numAlphabet, nn, ctx.Shard, ctx.Of, func(s string) bool { do(nil, "exhaustive-numeric", s); return limit() })
